@@ -681,7 +681,7 @@ def _check_whiten(case, ctx):
     # two sub-checks (same tolerance): degenerate = an eigenvalue is repeated
     # or nearly repeated (relative gap < 1e-4)
     ctx.close("whiten_WhRW_eq_I" if gap == "distinct" else
-              "whiten_WhRW_eq_I_degenerate", _amax(E), 1e-10 * kap,
+              "whiten_WhRW_eq_I_degenerate", _amax(E), 1e-9 * kap,
               "n=%d eigenvalues=%r" % (n, ev.tolist()), tags)
 
 
